@@ -5,6 +5,7 @@ package main
 import (
 	"fmt"
 	"math/big"
+	"sort"
 	"strings"
 
 	"github.com/onflow/crypto"
@@ -61,12 +62,16 @@ func genC09(c *Ctx) {
 	// enums
 	for _, a := range algos {
 		c.probe("SigningAlgorithm.String", fmt.Sprint(int(a)), true, func() (string, error) { return a.String(), nil })
-		for name, b := range byteShapes(c, 32) {
+		for _, e_name := range ordered(byteShapes(c, 32)) {
+		name, b := e_name.k, e_name.v
+		_, _ = name, b
 			c.probe("GeneratePrivateKey", fmt.Sprintf("algo=%d seed=%s", a, name), true, func() (string, error) { _, err := crypto.GeneratePrivateKey(a, b); return "", err })
 			c.probe("DecodePrivateKey", fmt.Sprintf("algo=%d %s", a, name), true, func() (string, error) { _, err := crypto.DecodePrivateKey(a, b); return "", err })
 		}
 		for _, l := range []int{33, 48, 64, 96} {
-			for name, b := range byteShapes(c, l) {
+			for _, e_name := range ordered(byteShapes(c, l)) {
+		name, b := e_name.k, e_name.v
+		_, _ = name, b
 				c.probe("DecodePublicKey", fmt.Sprintf("algo=%d len%d-%s", a, l, name), true, func() (string, error) { _, err := crypto.DecodePublicKey(a, b); return "", err })
 				c.probe("DecodePublicKeyCompressed", fmt.Sprintf("algo=%d len%d-%s", a, l, name), true, func() (string, error) { _, err := crypto.DecodePublicKeyCompressed(a, b); return "", err })
 				c.probe("SignatureFormatCheck", fmt.Sprintf("algo=%d len%d-%s", a, l, name), true, func() (string, error) { _, err := crypto.SignatureFormatCheck(a, b); return "", err })
@@ -78,13 +83,21 @@ func genC09(c *Ctx) {
 	}
 	// sign / verify on every key type with every hasher shape and signature shape
 	hashers := map[string]hash.Hasher{"nil": nil, "kmac128": h, "sha3": sha, "size0": &fixedHasher{size: 0}, "size127": &fixedHasher{out: make([]byte, 127), size: 127}, "size129": &fixedHasher{out: make([]byte, 129), size: 129}}
-	for kname, sk := range map[string]crypto.PrivateKey{"bls": bk, "p256": ek, "k256": kk} {
-		for hname, hs := range hashers {
-			for dname, d := range byteShapes(c, 0) {
+	for _, e_kname := range ordered(map[string]crypto.PrivateKey{"bls": bk, "p256": ek, "k256": kk}) {
+		kname, sk := e_kname.k, e_kname.v
+		_, _ = kname, sk
+		for _, e_hname := range ordered(hashers) {
+		hname, hs := e_hname.k, e_hname.v
+		_, _ = hname, hs
+			for _, e_dname := range ordered(byteShapes(c, 0)) {
+		dname, d := e_dname.k, e_dname.v
+		_, _ = dname, d
 				c.probe("Sign", kname+" hasher="+hname+" data="+dname, true, func() (string, error) { _, err := sk.Sign(d, hs); return "", err })
 			}
 			for _, l := range []int{48, 64} {
-				for sname, s := range byteShapes(c, l) {
+				for _, e_sname := range ordered(byteShapes(c, l)) {
+		sname, s := e_sname.k, e_sname.v
+		_, _ = sname, s
 					c.probe("Verify", fmt.Sprintf("%s hasher=%s sig=len%d-%s", kname, hname, l, sname), true, func() (string, error) { _, err := sk.PublicKey().Verify(s, []byte("m"), hs); return "", err })
 				}
 			}
@@ -99,7 +112,9 @@ func genC09(c *Ctx) {
 			return "", nil
 		})
 	}
-	for name, s := range byteShapes(c, 48) {
+	for _, e_name := range ordered(byteShapes(c, 48)) {
+		name, s := e_name.k, e_name.v
+		_, _ = name, s
 		c.probe("IsBLSSignatureIdentity", name, true, func() (string, error) { return fmt.Sprint(crypto.IsBLSSignatureIdentity(s), crypto.Signature(s).String(), len(crypto.Signature(s).Bytes())), nil })
 		c.probe("BLSVerifyPOP", name, true, func() (string, error) { _, err := crypto.BLSVerifyPOP(bk.PublicKey(), s); return "", err })
 		c.probe("SPOCKVerify", name, true, func() (string, error) {
@@ -136,14 +151,18 @@ func genC09(c *Ctx) {
 	// aggregation and multi-verification with list shapes
 	pk := bk.PublicKey()
 	listShapes := map[string][]crypto.PublicKey{"nil": nil, "empty": {}, "one": {pk}, "nil-element": {pk, nil}, "mixed": {pk, ek.PublicKey()}, "many": {pk, pk, pk, pk, pk}}
-	for lname, pks := range listShapes {
+	for _, e_lname := range ordered(listShapes) {
+		lname, pks := e_lname.k, e_lname.v
+		_, _ = lname, pks
 		c.probe("AggregateBLSPublicKeys", lname, true, func() (string, error) { _, err := crypto.AggregateBLSPublicKeys(pks); return "", err })
 		c.probe("RemoveBLSPublicKeys", lname, true, func() (string, error) { _, err := crypto.RemoveBLSPublicKeys(pk, pks); return "", err })
 		c.probe("VerifyBLSSignatureOneMessage", lname, true, func() (string, error) {
 			_, err := crypto.VerifyBLSSignatureOneMessage(pks, sig, nil, h)
 			return "", err
 		})
-		for sname, s := range byteShapes(c, 48) {
+		for _, e_sname := range ordered(byteShapes(c, 48)) {
+		sname, s := e_sname.k, e_sname.v
+		_, _ = sname, s
 			for _, nm := range []int{0, 1, len(pks), len(pks) + 1} {
 				msgs := make([][]byte, nm)
 				hs := make([]hash.Hasher, nm)
@@ -172,10 +191,14 @@ func genC09(c *Ctx) {
 			})
 		}
 	}
-	for lname, sks := range map[string][]crypto.PrivateKey{"nil": nil, "one": {bk}, "nil-element": {bk, nil}, "mixed": {bk, ek}} {
+	for _, e_lname := range ordered(map[string][]crypto.PrivateKey{"nil": nil, "one": {bk}, "nil-element": {bk, nil}, "mixed": {bk, ek}}) {
+		lname, sks := e_lname.k, e_lname.v
+		_, _ = lname, sks
 		c.probe("AggregateBLSPrivateKeys", lname, true, func() (string, error) { _, err := crypto.AggregateBLSPrivateKeys(sks); return "", err })
 	}
-	for sname, s := range byteShapes(c, 48) {
+	for _, e_sname := range ordered(byteShapes(c, 48)) {
+		sname, s := e_sname.k, e_sname.v
+		_, _ = sname, s
 		for _, n := range []int{0, 1, 3} {
 			l := make([]crypto.Signature, n)
 			for i := range l {
@@ -197,7 +220,9 @@ func genC09(c *Ctx) {
 				return "", err
 			})
 			c.probe("EnoughShares", fmt.Sprintf("t=%d k=%d", t, n), true, func() (string, error) { _, err := crypto.EnoughShares(t, n); return "", err })
-			for sname, s := range byteShapes(c, 48) {
+			for _, e_sname := range ordered(byteShapes(c, 48)) {
+		sname, s := e_sname.k, e_sname.v
+		_, _ = sname, s
 				c.probe("BLSReconstructThresholdSignature", fmt.Sprintf("n=%d t=%d share=%s", n, t, sname), true, func() (string, error) {
 					shares := []crypto.Signature{s, s, s}
 					_, err := crypto.BLSReconstructThresholdSignature(n, t, shares, []int{0, 1, 2})
@@ -226,7 +251,9 @@ func genC09(c *Ctx) {
 		}
 	}
 	for _, idx := range ints {
-		for sname, s := range byteShapes(c, 48) {
+		for _, e_sname := range ordered(byteShapes(c, 48)) {
+		sname, s := e_sname.k, e_sname.v
+		_, _ = sname, s
 			c.probe("Inspector", fmt.Sprintf("idx=%d share=%s", idx, sname), true, func() (string, error) {
 				insp, err := crypto.NewBLSThresholdSignatureInspector(ts.group, ts.pks, ts.t, ts.msg, ts.tag)
 				if err != nil {
@@ -386,7 +413,9 @@ func genC09(c *Ctx) {
 		})
 	}
 	// hashers and PRG constructors (their errors are plain errors by documentation)
-	for kname, k := range byteShapes(c, 16) {
+	for _, e_kname := range ordered(byteShapes(c, 16)) {
+		kname, k := e_kname.k, e_kname.v
+		_, _ = kname, k
 		for _, out := range []int{-1 << 40, -1, 0, 1, 168, 1 << 16} {
 			c.probe("NewKMAC_128", fmt.Sprintf("key=%s out=%d", kname, out), false, func() (string, error) {
 				hh, err := hash.NewKMAC_128(k, k, out)
@@ -402,8 +431,12 @@ func genC09(c *Ctx) {
 			})
 		}
 	}
-	for name, hs := range map[string]func() hash.Hasher{"sha2_256": hash.NewSHA2_256, "sha2_384": hash.NewSHA2_384, "sha3_256": hash.NewSHA3_256, "sha3_384": hash.NewSHA3_384, "keccak": hash.NewKeccak_256} {
-		for dname, d := range byteShapes(c, 136) {
+	for _, e_name := range ordered(map[string]func() hash.Hasher{"sha2_256": hash.NewSHA2_256, "sha2_384": hash.NewSHA2_384, "sha3_256": hash.NewSHA3_256, "sha3_384": hash.NewSHA3_384, "keccak": hash.NewKeccak_256}) {
+		name, hs := e_name.k, e_name.v
+		_, _ = name, hs
+		for _, e_dname := range ordered(byteShapes(c, 136)) {
+		dname, d := e_dname.k, e_dname.v
+		_, _ = dname, d
 			c.probe("Hasher", name+" "+dname, false, func() (string, error) {
 				x := hs()
 				x.Write(d)
@@ -418,8 +451,12 @@ func genC09(c *Ctx) {
 			})
 		}
 	}
-	for sname, s := range byteShapes(c, 32) {
-		for cname, cu := range byteShapes(c, 12) {
+	for _, e_sname := range ordered(byteShapes(c, 32)) {
+		sname, s := e_sname.k, e_sname.v
+		_, _ = sname, s
+		for _, e_cname := range ordered(byteShapes(c, 12)) {
+		cname, cu := e_cname.k, e_cname.v
+		_, _ = cname, cu
 			c.probe("NewChacha20PRG", "seed="+sname+" cust="+cname, false, func() (string, error) {
 				g, err := random.NewChacha20PRG(s, cu)
 				if err != nil {
@@ -439,7 +476,9 @@ func genC09(c *Ctx) {
 			})
 		}
 	}
-	for name, st := range byteShapes(c, 52) {
+	for _, e_name := range ordered(byteShapes(c, 52)) {
+		name, st := e_name.k, e_name.v
+		_, _ = name, st
 		c.probe("RestoreChacha20PRG", name, false, func() (string, error) {
 			if len(st) == 52 { // keep the counter in the documented range
 				for i := 48; i < 52; i++ {
@@ -453,4 +492,23 @@ func genC09(c *Ctx) {
 			return "", err
 		})
 	}
+}
+
+type kv[V any] struct {
+	k string
+	v V
+}
+
+// ordered fixes the enumeration order of a map (generation must be reproducible for replays).
+func ordered[V any](m map[string]V) []kv[V] {
+	var keys []string
+	for k := range m {
+		keys = append(keys, k)
+	}
+	sort.Strings(keys)
+	out := make([]kv[V], 0, len(keys))
+	for _, k := range keys {
+		out = append(out, kv[V]{k, m[k]})
+	}
+	return out
 }
